@@ -1,5 +1,54 @@
-(* C06 - statements only. *)
-Require Import List ZArith. Require Import IW.KV.Node IW.KV.Node_proofs.
-Theorem C06_insert_length : forall K V (n : recs K V) i e, length (insert_at K V n i e) = S (length n).
-Proof. exact insert_at_length. Qed.
-Print Assumptions C06_insert_length.
+(* C06 - on-disk structure well-formed and every block accounted for.  Statements only.
+   The auditor (KV/Audit.v) is an independent reader of the file format, extracted and run on the real file image
+   after every batch of every history.  Its per-node and per-chain checks are boolean tests that restate the property
+   directly (reachability from the header, level-i chain = nodes of the level-0 chain with lvl >= i, back links,
+   per-level counters, nodes non-empty / sorted / globally ordered / true prefix, slots inside the block without
+   overlap).  PROVED here: the two accounting algorithms it relies on mean what the property says.
+   NOT proved: that every reachable state of the store model passes the auditor (L2 links and L3 data-block layout are
+   not in the Coq model of the store); that part rests on the audited real images (tie T2). *)
+Require Import List ZArith Lia Sorted. Import ListNotations.
+Require Import IW.KV.Audit IW.KV.Audit_proofs.
+Local Open Scope Z_scope.
+
+(* the adjacent-overlap test on the ranges sorted by start is pairwise disjointness (blocks, and slots of a data block) *)
+Theorem C06_ranges_disjoint_sound :
+  forall l : list (Z * Z),
+    Forall (fun r => 0 <= snd r) l -> ranges_disjoint (sort_ranges l) = true ->
+    ForallOrdPairs disj (sort_ranges l) /\ (forall r, In r (sort_ranges l) <-> In r l).
+Proof.
+  intros l Hn Hd. split; [|intros r; apply sort_ranges_in].
+  apply ranges_disjoint_sound; [apply sort_ranges_sorted| |exact Hd].
+  rewrite Forall_forall in *. intros r Hr. apply Hn. apply sort_ranges_in. exact Hr.
+Qed.
+Print Assumptions C06_ranges_disjoint_sound.
+
+(* no complaint from the bitmap walk = the allocated set equals the occupied set exactly, for every byte function
+   (file image), every bitmap offset and every list of occupied ranges: nothing leaks, nothing is unaccounted *)
+Theorem C06_bitmap_exact :
+  forall (rd : Z -> Z) (bmoff total : Z) (l : list (Z * Z)),
+    Forall (fun r => 0 <= snd r) l -> Forall (fun r => 0 <= fst r) l -> 0 <= total ->
+    ranges_disjoint (sort_ranges l) = true ->
+    check_map rd bmoff 0 total (sort_ranges l) = [] ->
+    forall b, 0 <= b < total -> (bm_bit rd bmoff b = true <-> exists r, In r l /\ inr b r).
+Proof.
+  intros rd bmoff total l Hn Hs Ht Hd Hc b Hb.
+  assert (Hn' : Forall (fun r => 0 <= snd r) (sort_ranges l)).
+  { rewrite Forall_forall in *. intros r Hr. apply Hn. apply sort_ranges_in. exact Hr. }
+  assert (Hlo : laid_out 0 (sort_ranges l)).
+  { apply laid_out_of_disjoint; [apply sort_ranges_sorted|exact Hn'|exact Hd|].
+    destruct (sort_ranges l) as [|r0 rest] eqn:E; [exact I|].
+    rewrite Forall_forall in Hs. apply Hs. apply sort_ranges_in. rewrite E. left. reflexivity. }
+  rewrite (check_map_sound rd bmoff (sort_ranges l) 0 total Hlo Ht Hc b Hb).
+  split; intros [r [Hr Hi]]; exists r; split; auto; apply sort_ranges_in; exact Hr.
+Qed.
+Print Assumptions C06_bitmap_exact.
+
+(* Non-vacuity: a 16-block image whose bitmap byte 0x0F 0x03 marks blocks 0-3 and 8-9; ranges (0,4) and (8,2) *)
+Example C06_bitmap_example :
+  let rd := fun o => if o =? 100 then 15 else if o =? 101 then 3 else 0 in
+  check_map rd 100 0 16 (sort_ranges [(8, 2); (0, 4)]) = [] /\ ranges_disjoint (sort_ranges [(8, 2); (0, 4)]) = true.
+Proof. vm_compute. split; reflexivity. Qed.
+Example C06_bitmap_example_leak :
+  let rd := fun o => if o =? 100 then 15 else if o =? 101 then 7 else 0 in
+  check_map rd 100 0 16 (sort_ranges [(8, 2); (0, 4)]) = [CLeak 10].
+Proof. vm_compute. reflexivity. Qed.
